@@ -7,6 +7,7 @@ import sys
 
 import c13
 import gg
+import gtrace
 import lib
 
 ERR = {"EACCES": 13, "EIO": 5, "ENOENT": 2}
@@ -28,8 +29,8 @@ def build(work, variant):
     return base
 
 
-def run(base, work, plan, disk, extra, logf=None):
-    env = lib.base_env(work, disk_kind=disk)
+def run(base, work, plan, disk, extra, logf=None, trace=None):
+    env = lib.base_env(work, disk_kind=disk, trace=trace)
     env["RAYON_NUM_THREADS"] = "1"
     senv = lib.shim_env(env, log_path=logf, root=base, plan=plan) if (plan or logf) else env
     return lib.run_fclones(["group", "b", "--threads", "1"] + extra, work, senv, timeout=60)
@@ -73,7 +74,8 @@ def one(t):
         plan = ";;".join(rules)
         # path substring must not match a longer sibling: all names are distinct non-prefixes except directories (handled by the trailing check below)
         logf = os.path.join(work, "f.log")
-        r = run(base, work, plan, disk, extra, logf)
+        trace = os.path.join(work, "stages.ndjson")
+        r = run(base, work, plan, disk, extra, logf, trace=trace)
         log = lib.read_shim_log(logf)
         injected = [e for e in log if e.get("inj") == 1]
         # an open that only serves the extent query (plain O_RDONLY; the hasher opens with O_NOATIME first) is not a read: if no
@@ -101,6 +103,28 @@ def one(t):
             else:
                 removed.append(p)
         res["removed"] = [os.path.relpath(x, base) for x in removed]
+        # the same run stage by stage against Grouping.tla: entries lost during the walk are not part of the input, paths whose
+        # open / read failed are the specification's unreadable paths
+        lost = set()
+        for e in injected:
+            if e["call"] in ("stat", "lstat", "opendir", "readlink"):
+                lost.add(e["p1"])
+            elif e["call"] == "readdir":
+                delivered = {os.path.basename(x["p2"]) for x in log if x["call"] == "readdir" and x.get("p1") == e["p1"] and x.get("p2") and x["ret"] == 0}
+                lost |= {os.path.join(e["p1"], n) for n in os.listdir(e["p1"]) if n not in delivered}
+        unreadable = {e["p1"] for e in injected if e["call"] in ("openr", "read")}
+        if r.rc == 0 and not r.timed_out:
+            scanned = []
+            for root, dirs, names in os.walk(base):
+                for n in names:
+                    p = os.path.join(root, n)
+                    if os.path.islink(p) or any(p == x or p.startswith(x + "/") for x in lost):
+                        continue
+                    scanned.append((p, 0))
+            gcfg = {"disk_kind": disk, "unique": "--unique" in extra}
+            if "--rf-over" in extra:
+                gcfg["rf_over"] = int(extra[extra.index("--rf-over") + 1])
+            res["stage_lines"], res["stage_problem"] = gtrace.build_run_from_paths(0, scanned, gcfg, gtrace.read_events(trace), unreadable)
         for p in removed:
             if os.path.isdir(p) and not os.path.islink(p):
                 shutil.rmtree(p)
@@ -244,6 +268,16 @@ def main(tier):
             chk.violation(f"C15/others-affected class={cls} {sig}", f"the report differs from the report of the tree without {r['removed']}: {r.get('diff')}", r)
         if not r["warned"] and any(e != 2 for e in r.get("injected_errnos", [5])):        # only faults that really fired count
             chk.violation(f"C15/no-warning class={cls} {sig}", "an entry could not be read (not ENOENT) but no warning was logged", r)
+    staged = []
+    for n_, r in enumerate(done):
+        if r.get("stage_lines"):
+            staged.append((n_, [ln.replace('"run": 0', '"run": %d' % n_, 1) for ln in r["stage_lines"]]))
+        elif r.get("stage_problem"):
+            chk.divergences += 1
+            print(f"DIVERGENCE property=C15 no stage trace for faults={r['faults']}: {r['stage_problem']}")
+    gtrace.validate(chk, "C15", staged, lambda rid: {"args": ["group", "b", "--threads", "1"] + list(done[rid]["extra"]) + ["faults=%s" % done[rid]["faults"]]} if rid is not None else {})
+    for r in done:
+        r.pop("stage_lines", None)
     chk.cov["evaluations"] = len(done)
     chk.cov["traces_validated_against_impl"] = len(done)
     chk.cov["distinct_nontrivial"] = len(nontrivial)
